@@ -401,7 +401,13 @@ where
             }
         }
 
-        self.idle.entry(token).or_default().push(connection);
+        let idle = self.idle.entry(token).or_default();
+        if idle.len() >= self.config.max_idle_per_host {
+            trace!(?token, "idle connection limit reached, closing connection");
+            return;
+        }
+
+        idle.push(connection);
     }
 
     fn pop(&mut self, token: Token) -> Option<C> {
